@@ -1217,6 +1217,6 @@ def replay(ctx, payload):
 
 MANIFEST = {
     "text": "For every program built from override blocks (temp_params in dict AND sequence form, vm.temp_params, mask_params, temp_used_res, temp_total_gls_one, temp_config, nested in any way), derived computations (partial_weight, partial_weight_interference, cal_fitfractions / fit_fractions / ConfigLoader.cal_fitfractions / cal_signal_yields, FitFractions.integral, factor_iteration, build_amp_matrix, the weight computations of plot_partial_wave and plot_partial_wave_interf, cal_bins_numbers, PlotAllData = get_all_plotdatas / get_plotter, likelihood_profile, get_params_error, factor_system.partial_amp, eval_normal_factors) and faults (a body raising, any inner density evaluation / fit / likelihood evaluation raising, a rejected value, a too short sequence), the observable state (stored parameter values, mask_vars, chains_idx, not_full, mask_factor flags, configuration, ls selection, the trainable_vars list with its order) after the program equals the state before it; a set_params in a body is undone exactly when it sits inside an amp.temp_params block and otherwise changes the parameter values only. Every call / assignment in the package that can change this state is inventoried from the source on every run and must be on the reviewed list.",
-    "note": "Lean: Model/Override.lean gives the big-step semantics of both the tree as it is and the tree after fix_C17_*.diff (18 per-site flags, observed per run; PlotAllData and factor_system.temp_var violated the statement on the pinned tree and are listed in known_findings.jsonl with fixes/C17-plot_all_data.diff, C17-factor_system_temp_var.diff; likelihood_profile and get_params_error — a fit scan and an error calculation, which the property statement does not enumerate — are modelled and compared with the code in both variants, what they leave behind is recorded in the evidence (state_changes_observed_outside_the_statement) but never judged; candidate patches C17-likelihood_profile.diff, C17-params_error.diff are kept unapplied). Props/C17.lean: restore_upTo (every covered program, set_params anywhere: everything but the parameters restored), restore_covered / restore_all (every guarded program, every fault, every state: everything restored), refutations for the as-is variant, restore_all_partial. Props/C17b.lean: the further entry points as instances (all arguments, all fault positions), 10 as-is witnesses for the four unpatched sites, sequence-form / nesting / set_params statements. Proved about the model; tied to the code by (a) one probe per site and outcome on the real objects that selects the variant, (b) exact comparison model vs real objects on probes, systematic and seeded random programs (values written by a fit / a finite-difference step are a wildcard), (c) the AST inventory harness/c17_sites.py (105 sites: 50 modelled, 6 through an identical site, 49 excluded with reason; 4 of the excluded ones are read-only computations that are NOT covered: CachedShapeAmplitudeModel.pdf, CachedShapePreProcessor.build_cached, attach_fix_params_error). Validated only (not proved, not driven): cal_signal_yields and eval_normal_factors (proved as derived programs, not run), get_params_error with method 3-point / the default Hessian branch, likelihood_profile with a real fit (a stub fit moves the trainable variables), the numerics of the likelihood inside get_params_error (counting stubs).",
+    "note": "Lean: Model/Override.lean gives the big-step semantics of both the tree as it is and the tree after fix_C17_*.diff (18 per-site flags, observed per run; PlotAllData and factor_system.temp_var violated the statement on the pinned tree and were repaired in /repo by cdd15db and 7f17cec (kind 'fixed' in known_findings.jsonl); likelihood_profile and get_params_error — a fit scan and an error calculation, which the property statement does not enumerate — are modelled and compared with the code in both variants, what they leave behind is recorded in the evidence (state_changes_observed_outside_the_statement) but never judged; candidate patches C17-likelihood_profile.diff, C17-params_error.diff are kept unapplied). Props/C17.lean: restore_upTo (every covered program, set_params anywhere: everything but the parameters restored), restore_covered / restore_all (every guarded program, every fault, every state: everything restored), refutations for the as-is variant, restore_all_partial. Props/C17b.lean: the further entry points as instances (all arguments, all fault positions), 10 as-is witnesses for the four unpatched sites, sequence-form / nesting / set_params statements. Proved about the model; tied to the code by (a) one probe per site and outcome on the real objects that selects the variant, (b) exact comparison model vs real objects on probes, systematic and seeded random programs (values written by a fit / a finite-difference step are a wildcard), (c) the AST inventory harness/c17_sites.py (105 sites: 50 modelled, 6 through an identical site, 49 excluded with reason; 4 of the excluded ones are read-only computations that are NOT covered: CachedShapeAmplitudeModel.pdf, CachedShapePreProcessor.build_cached, attach_fix_params_error). Validated only (not proved, not driven): cal_signal_yields and eval_normal_factors (proved as derived programs, not run), get_params_error with method 3-point / the default Hessian branch, likelihood_profile with a real fit (a stub fit moves the trainable variables), the numerics of the likelihood inside get_params_error (counting stubs).",
     "technique": "proof (structural induction over programs) + differential correspondence + model-independent before/after search + AST site inventory",
 }
